@@ -173,11 +173,7 @@ def _worker(args):
                         out["violations"].append({"kind": "state:" + clause, "detail": "the initial state of the episode does "
                                                   "not satisfy %s (hypothesis of the %s theorems)" % (clause, prop),
                                                   "replay": replay_of(e.first, state=r0.pre)})
-                try:
-                    flex = all("FLEX" in str(m.postbuffer.type).upper() or m.postbuffer.capacity == 1
-                               for m in r0.codec.instance.machines)     # flex_post_b of SMP/ProvBatch.v
-                except Exception:  # noqa
-                    flex = False
+                flex = True     # the *_every_instance theorems speak about every instance (SMP/ProvBatch.v)
                 if flex and prop != "C03":
                     nflex += 1
                     for hname in flex_hyps:
@@ -185,8 +181,8 @@ def _worker(args):
                             continue        # those profiles start outside the theorems' class on purpose
                         if bits[trace.CLAUSES.index(hname)] != "1":
                             out["violations"].append({"kind": "state:" + hname, "detail": "the initial state of an episode on "
-                                                      "an instance with unordered post-buffers does not satisfy %s "
-                                                      "(hypothesis of the %s_*_flex theorems)" % (hname, prop),
+                                                      "an instance does not satisfy %s "
+                                                      "(hypothesis of the %s_*_every_instance theorems)" % (hname, prop),
                                                       "replay": replay_of(e.first, state=r0.pre)})
         out["fresh_initial_states"] = nfresh
         out["flex_episodes"] = nflex
